@@ -25,6 +25,36 @@ def small_blocks(max_len):
     return out
 
 
+def dependence_blocks():
+    """blocks whose specification carries memory / storage dependences (store->load, load->store, store->store, hash after
+    store) on symbolic addresses, with and without slack in the length bound (a redundant prefix leaves room for programs
+    that place the accesses elsewhere); every one is paired with fixed option sets that cover both memory encodings with and
+    without dependency-aware position bounds:  list of (instrs, argv)"""
+    I = lambda *names: [(n, None) for n in names]
+    cores = [I("MSTORE", "MLOAD"), I("SSTORE", "SLOAD"), I("DUP1", "MLOAD", "SWAP2", "MSTORE"), I("DUP1", "SLOAD", "SWAP2", "SSTORE"),
+             I("MSTORE", "MSTORE"), I("SSTORE", "SSTORE"), I("MSTORE8", "MLOAD"), I("MSTORE", "DUP1", "MLOAD", "SWAP2", "MSTORE"),
+             I("DUP2", "DUP2", "MSTORE", "MLOAD", "SWAP1", "MLOAD"), I("SWAP2", "SWAP1", "MSTORE", "MLOAD"),
+             I("MLOAD", "SWAP2", "SWAP1", "MSTORE"), I("SLOAD", "SWAP2", "SWAP1", "SSTORE"), I("MSTORE", "KECCAK256"),
+             I("DUP1", "MLOAD", "SWAP1", "MLOAD"), I("MSTORE", "SLOAD"), I("SSTORE", "MLOAD")]
+    prefixes = [[], I("SWAP1", "SWAP1"), I("DUP1", "POP"), I("DUP1", "SWAP1", "POP")]
+    argvs = [[], ["-order-bounds"], ["-order-bounds", "-order-conflicts"], ["-memory-encoding", "l_vars"],
+             ["-memory-encoding", "l_vars", "-order-bounds"], ["-order-bounds", "-term-encoding", "int"], ["-empty"],
+             ["-order-bounds", "-empty"], ["-term-encoding", "stack_vars", "-pop-uninterpreted"], ["-order-bounds", "-direct-inequalities"]]
+    out = []
+    for c in cores:
+        for pre in prefixes:
+            b = pre + c
+            try:
+                need, _ = evm.need_and_delta(b)
+            except Exception:
+                continue
+            if need > 5 or len(b) > 7:
+                continue
+            for a in argvs:
+                out.append((b, ["-solver", "z3"] + a))
+    return out
+
+
 def encoder_argv_strategy():
     return st.builds(lambda flags, t, m, c: ["-solver", "z3"] + [x for f in flags for x in f] + list(t) + list(m) + list(c),
                      st.lists(st.sampled_from(options.ENCODER_FLAGS), max_size=3, unique_by=lambda f: f[0]),
